@@ -15,8 +15,20 @@ git apply $out/patch.diff
 go build ./... 2>/tmp/seed/$id.build.err || { echo "REJECTED: does not build"; git checkout -q -- .; exit 1; }
 # full suite, compared against the baseline's stable_pass list
 # packages that listen on fixed ports (pkg/p2p, pkg/rpc) are run under a lock so that parallel confirmations do not collide
+# RETRY_PORTS=1: second pass for a change whose first pass failed only in the timing-sensitive tests of pkg/p2p while the
+# machine was loaded: the other packages' results of the first pass are kept, pkg/p2p and pkg/rpc are run again (up to 3 times)
+if [ -n "${RETRY_PORTS:-}" ] && [ -f /tmp/seed/$id.c$k.test.json ]; then
+  grep -v '"Package":"github.com/LiskHQ/lisk-engine/pkg/\(p2p\|rpc\)"' /tmp/seed/$id.c$k.test.json > /tmp/seed/$id.c$k.test.json.keep
+  mv /tmp/seed/$id.c$k.test.json.keep /tmp/seed/$id.c$k.test.json
+else
 go test -json -vet=off -count=1 -timeout 25m $(go list ./... | grep -v '/pkg/p2p$\|/pkg/rpc$') > /tmp/seed/$id.c$k.test.json 2>/dev/null
-flock /tmp/seed/ports.lock go test -json -vet=off -count=1 -timeout 25m ./pkg/p2p ./pkg/rpc >> /tmp/seed/$id.c$k.test.json 2>/dev/null
+fi
+for try in 1 2 3; do
+  flock /tmp/seed/ports.lock go test -json -vet=off -count=1 -timeout 25m ./pkg/p2p ./pkg/rpc > /tmp/seed/$id.c$k.ports.json 2>/dev/null
+  if ! grep -q '"Action":"fail"' /tmp/seed/$id.c$k.ports.json; then break; fi
+  [ -z "${RETRY_PORTS:-}" ] && break
+done
+cat /tmp/seed/$id.c$k.ports.json >> /tmp/seed/$id.c$k.test.json
 python3 - /tmp/seed/$id.c$k.test.json <<'PY' || { cd $wt; git checkout -q -- .; git clean -fdq; exit 1; }
 import json,sys
 stable=set(json.load(open('/root/.vp/BASELINE.json'))['stable_pass'])
